@@ -601,6 +601,11 @@ func (c *clientFile) Readdir(offset uint64, count uint32) (Dirents, error) {
 		return nil, linux.EBADF
 	}
 
+	// The reply has to fit in the negotiated message size.
+	if count > c.client.payloadSize {
+		count = c.client.payloadSize
+	}
+
 	rreaddir := rreaddir{}
 	if err := c.client.sendRecv(&treaddir{Directory: c.fid, Offset: offset, Count: count}, &rreaddir); err != nil {
 		return nil, err
